@@ -11,8 +11,8 @@ RULE = ('(a) gate correspondence on a harness plugin loaded into the live bot: g
         'capabilities and defaultAllow, default set, default flag, ignore database) x channel/private: the real Owner.doPrivmsg -> '
         'NestedCommandsIrcProxy -> _callCommand run is compared event by event with the extracted model; checkCommandCapability, '
         'DefaultCapabilities.setValue sequences and ircdb.checkIgnored are compared on their own (incl. hostile names).  (b) live bot, worker '
-        'processes: EVERY command of every loadable bundled plugin x 7 caller roles (owner, admin, channel-op, plain registered, unregistered, '
-        'ignored, secure account with wrong hostmask) x addressing forms (prefix char, nick, private, nick at end) x wrappers (direct, plugin-qualified, '
+        'processes: EVERY command of every loadable bundled plugin x 11 caller roles (owner, admin, channel-op, plain registered, unregistered, '
+        'ignored, and secure owner/admin/channel-op accounts addressed from a non-matching hostmask: identified there by password before `secure` was set, never identified, identified from a mask removed later) x addressing forms (prefix char, nick, private, nick at end) x wrappers (direct, plugin-qualified, '
         'nested [..], piped, Alias, Aka, Scheduler fired with a patched clock) x default-capability settings (stock, default-deny, anti-capability '
         'of the command / of the plugin in the default set, in the channel, on the account): every command body is wrapped to log calls, '
         'ircdb.users/channels/ignores, the registry, irc.callbacks and world.ircs are snapshotted before/after; the model predicts the gate '
@@ -33,7 +33,7 @@ LEVEL_TEXT = ('Coq theorems over an executable Gallina model of the gate every c
               'ircdb.checkIgnored, PluginMixin.__call__ and the decision prefix of Owner.doPrivmsg), built on C03\'s model of ircdb.checkCapability: body runs => every '
               'asked name passes (no anti-capability, default-allow or capability); Owner/Admin (any plugin name) refused through C03\'s anti-symmetry; body runs => every '
               'top-level gating converter was answered True; -owner stays in the default set for every setValue sequence whose values do not contain `owner` (refuted '
-              'otherwise: finding C01-a); ignored callers get no event; inventory lemmas by reflection over a table regenerated from all plugin sources.  Tie: regenerated '
+              'otherwise: finding C01.a); ignored callers get no event; inventory lemmas by reflection over a table regenerated from all plugin sources.  Tie: regenerated '
               'tables + differential run of the extracted model on a harness plugin + live differential run over all commands of all loaded plugins.')
 LEVEL_NOTE = ('Trusted: Coq kernel, gen_tables.py, extraction + driver, harness.  The 60 plugin bodies are not modelled: in-body capability checks and plugin-registered '
               'gating converters are covered by the live run only.  User lookup and ignore-list matching are inputs.')
@@ -42,8 +42,21 @@ EXPLANATION = 'C01: model of the capability gate; theorems in coq/C01/Props.v'
 
 CHAN = '#test'
 ROLES = {'owner': 'own!o@ohost', 'admin': 'adm!a@ahost', 'chanop': 'cop!c@chost', 'plain': 'pln!p@phost',
-         'unreg': 'unr!u@uhost', 'ignored': 'ign!i@ihost', 'secure': 'sec!s@wronghost'}
-ROLE_CAPS = {'owner': ['owner'], 'admin': ['admin'], 'chanop': ['#test,op'], 'plain': [], 'secure': ['owner']}
+         'unreg': 'unr!u@uhost', 'ignored': 'ign!i@ihost',
+         # secure accounts addressed from a hostmask that is not one of their registered masks:
+         'secure': 'sec!s@wronghost',       # owner account, identified by password from that prefix before `secure` was switched on
+         'secadmin': 'sad!s@wronghost',     # admin account, same history
+         'secchanop': 'sco!s@wronghost',    # #test,op account, same history
+         'secnoauth': 'sna!s@wronghost',    # owner account, never identified from that prefix
+         'secremoved': 'srm!s@oldhost'}     # owner account, identified from a then-matching mask that was removed afterwards
+ROLE_CAPS = {'owner': ['owner'], 'admin': ['admin'], 'chanop': ['#test,op'], 'plain': [], 'secure': ['owner'],
+             'secadmin': ['admin'], 'secchanop': ['#test,op'], 'secnoauth': ['owner'], 'secremoved': ['owner']}
+CORE_ROLES = ('owner', 'admin', 'chanop', 'plain', 'unreg', 'ignored', 'secure')
+SECURE_ROLES = ('secure', 'secadmin', 'secchanop', 'secnoauth', 'secremoved')
+# the property text for a secure account: without a matching registered mask the caller holds nothing the account holds,
+# so the oracle evaluates "does the caller hold X" for a prefix no account knows (never through the account lookup)
+UNKNOWN_EVAL = 'nobody!n@unregistered.invalid'
+NICKS = 'own adm cop pln unr ign sec sad sco sna srm'
 STUB_ROLES = ('owner', 'admin')
 EXTRA_CAPS = ['scheduler.add', 'scheduler.remove']       # so that registered non-owners can reach the Scheduler wrapper
 FORMS = ['char', 'nick', 'priv', 'atend']
@@ -125,7 +138,7 @@ def bot(all_plugins=True):
     B['loaded'], B['unloadable'] = loaded, failed
     for l in (':server 001 test :Welcome', ':server 005 test CHANTYPES=#& PREFIX=(ov)@+ STATUSMSG=@+ NICKLEN=30 :are supported',
               ':server 376 test :End of MOTD', ':test!bot@bothost JOIN #test',
-              ':server 353 test = #test :test @own adm cop pln unr ign sec', ':server 366 test #test :End of names'):
+              ':server 353 test = #test :test @%s' % NICKS, ':server 366 test #test :End of names'):
         irc.feedMsg(ircmsgs.IrcMsg(l))
     _instrument(B)
     setup_roles(B)
@@ -164,6 +177,14 @@ def setup_roles(B):
     """the seven callers; rebuilt from scratch so that every invocation starts from the same database"""
     ircdb = B['ircdb']
     users = ircdb.users
+    users.noFlush = True              # the harness's own rebuild need not rewrite users.conf 27 times
+    try:
+        _setup_roles(B, ircdb, users)
+    finally:
+        users.noFlush = False
+
+
+def _setup_roles(B, ircdb, users):
     for uid in list(users.users.keys()):
         users.delUser(uid)
     users.nextId = 0
@@ -172,9 +193,15 @@ def setup_roles(B):
         u.name = role
         for c in caps + EXTRA_CAPS:
             u.addCapability(c)
-        if role == 'secure':
-            u.addHostmask('sec!s@righthost')
-            u.addAuth(ROLES['secure'])       # identified from another host ...
+        if role in SECURE_ROLES:
+            nick = ROLES[role].split('!')[0]
+            u.addHostmask('%s!s@righthost' % nick)
+            if role == 'secremoved':
+                u.addHostmask(ROLES[role])
+                u.addAuth(ROLES[role])       # identified from a matching mask ...
+                u.removeHostmask(ROLES[role])  # ... which was removed later
+            elif role != 'secnoauth':
+                u.addAuth(ROLES[role])       # identified by password from another host ...
             u.secure = True                  # ... before the account was made secure
         else:
             u.addHostmask(ROLES[role])
@@ -482,7 +509,7 @@ def restore(B):
         if irc.nick != 'test':
             irc.feedMsg(im.IrcMsg(':%s NICK test' % irc.prefix))
         irc.feedMsg(im.IrcMsg(':test!bot@bothost JOIN #test'))
-        irc.feedMsg(im.IrcMsg(':server 353 test = #test :test @own adm cop pln unr ign sec'))
+        irc.feedMsg(im.IrcMsg(':server 353 test = #test :test @%s' % NICKS))
         irc.feedMsg(im.IrcMsg(':server 366 test #test :End of names'))
     irc.zombie = False
     _drain(B)
@@ -566,6 +593,43 @@ def dec_events(v):
 ARGS = ['', 'foo', '#test foo', '#other foo', 'supybot.nick bar', 'Utilities', 'own x', '1 2', 'add foo bar', '#other']
 
 
+class _ProxyShim:
+    def __init__(self, irc):
+        self.irc = irc
+
+
+def resolve_line(B, line):
+    """(plugin, 'command words') the bot itself dispatches for a command line (real tokenizer + real
+    NestedCommandsIrcProxy.findCallbacksForArgs); None when it is no command / ambiguous / nested"""
+    callbacks = B['callbacks']
+    irc = B['irc']            # Aka / Alias look their irc up through supybot's dynamic scope: a local named `irc` in a calling frame
+    msg = None
+    try:
+        tokens = callbacks.tokenize(line, channel=CHAN, network=irc.network)
+    except Exception:
+        return None
+    if not tokens or any(not isinstance(t, str) for t in tokens):
+        return None
+    try:
+        command, cbs = callbacks.NestedCommandsIrcProxy.findCallbacksForArgs(_ProxyShim(irc), list(tokens))
+    except Exception as e:
+        _BOT.setdefault('resolve_errors', []).append('%s: %r' % (line, e))
+        return None
+    if len(cbs) != 1 or not command:
+        return None
+    cb = cbs[0]
+    words = list(command)
+    if len(words) > 1 and words[0] == cb.canonicalName():
+        words = words[1:]
+    key = (cb.name(), ' '.join(words))
+    if key in B['bodies']:
+        return key
+    key2 = (cb.name(), ' '.join(words + words[-1:]))
+    if key2 in B['bodies']:
+        return key2
+    return ('?' + cb.name(), ' '.join(words))
+
+
 def wrap_text(wrapper, plugin, cmd, args, unique):
     base = ('%s %s' % (cmd, args)).strip()
     q = ('%s %s' % (plugin.lower(), base)).strip()
@@ -586,12 +650,14 @@ def wrap_text(wrapper, plugin, cmd, args, unique):
     raise ValueError(wrapper)
 
 
-def required_caps(B, prefix, chan, plugin, cmd, gates):
+def required_caps(B, prefix, chan, plugin, cmd, gates, eval_prefix=None):
     """the property text evaluated on the implementation: which required capability does this caller lack?
     (anti-capabilities an operator set for the command / its plugin; the plugin-name capability of Owner and Admin;
     default-deny; the command's own gating converters)"""
     ircdb, conf = B['ircdb'], B['conf']
     chk = ircdb.checkCapability
+    if eval_prefix is not None:
+        prefix = eval_prefix
     words = cmd.split()
     pl = B['callbacks'].canonicalName(plugin)
     names = [words[-1]] + ['.'.join([pl] + words[:i]) for i in range(len(words) + 1)]
@@ -647,20 +713,36 @@ def live_one(B, inv):
     returns (record for the parent, list of direct property failures)"""
     role, form, wrapper, plugin, cmd, args, setting = (inv[k] for k in ('role', 'form', 'wrapper', 'plugin', 'cmd', 'args', 'setting'))
     irc, ircdb, callbacks = B['irc'], B['ircdb'], B['callbacks']
-    info = B['bodies'].get((plugin, cmd))
-    if info is None:
+    if (plugin, cmd) not in B['bodies']:
         return None, []
+    # which command does the bot dispatch for the line we are about to send?  the expectation is applied to THAT command
+    send_plugin, send_cmd = plugin, cmd
+    unique = B['cmdcount'].get(cmd, 0) == 1 and ' ' not in cmd
+    q = ('%s %s %s' % (plugin.lower(), cmd, args)).strip()
+    inner = ('%s %s' % (cmd, args)).strip() if (wrapper == 'direct' and unique) else q
+    tgt = resolve_line(B, inner)
+    if tgt != (plugin, cmd) and inner != q:
+        unique, inner = False, q
+        tgt = resolve_line(B, inner)
+    retargeted = False
+    if tgt is not None and tgt != (plugin, cmd) and tgt in B['bodies']:
+        plugin, cmd = tgt
+        retargeted = True
+    info = B['bodies'][(plugin, cmd)]
     apply_setting(B, setting, plugin, cmd)
     prefix = ROLES[role]
+    eval_prefix = UNKNOWN_EVAL if role in SECURE_ROLES else None
     chan = None if form == 'priv' else CHAN
     gates, uncertain = place_channel_arg(B, gates_of(B, info), args, wrapper)
     if uncertain:
         gates_oracle = [g for g in gates if g[0] != 4]
     else:
         gates_oracle = gates
-    unique = B['cmdcount'].get(cmd, 0) == 1 and ' ' not in cmd
-    text = wrap_text(wrapper, plugin, cmd, args, unique)
-    lacks = required_caps(B, prefix, chan, plugin, cmd, gates_oracle)
+    if retargeted:
+        gates_oracle = [g for g in gates_oracle if g[0] != 4]      # the arguments of the sent line belong to another command
+        uncertain = True
+    text = wrap_text(wrapper, send_plugin, send_cmd, args, unique)
+    lacks = required_caps(B, prefix, chan, plugin, cmd, gates_oracle, eval_prefix)
     ignored = bool(ircdb.checkIgnored(prefix, chan or '')) or bool(ircdb.checkIgnored(prefix))
     dbwire = snapshot_wire(B, prefix)
     cb = irc.getCallback(plugin)
@@ -673,7 +755,7 @@ def live_one(B, inv):
     helps = ['(%s' % (' '.join([plugin.lower()] + words)), '(%s' % ' '.join(words)]
     if wrapper in ('alias', 'aka'):
         # the owner defines the alias through the bot itself; the caller then replays it
-        feed(B, 'owner', 'priv', '%s add %s "%s %s"' % (wrapper, 'vt' if wrapper == 'alias' else 'vk', plugin.lower(), cmd))
+        feed(B, 'owner', 'priv', '%s add %s "%s %s"' % (wrapper, 'vt' if wrapper == 'alias' else 'vk', send_plugin.lower(), send_cmd))
     del LOG[:]
     pre = None
     outs = []
@@ -761,31 +843,47 @@ class _WCtx:
         self.rng = random.Random(seed)
 
 
-def plan(B, rng, scale, cmds):
-    """every command x every role; form / wrapper / setting / args rotate (quick) or are sampled more densely (thorough)"""
+def plan(B, rng, mode, cmds, flt=None):
+    """every command x every role; form / wrapper / setting / args rotate (quick) or are sampled more densely (thorough);
+    mode 'widen' (a broken obligation without a failing input): a fresh sample restricted to the roles / commands of the
+    disagreeing inputs, so that the second pass stays within a couple of minutes"""
     invs = []
-    per = 2 if scale == 1 else 10
+
+    def add(ci, p, c, ri, role, per):
+        for j in range(per):
+            r = rng.random()
+            wrapper = WRAPPERS[(ci + 3 * ri + 2 * j) % len(WRAPPERS)] if r < 0.8 else 'plugin'
+            setting = 'stock' if rng.random() < 0.5 else rng.choice(SETTINGS[1:])
+            form = FORMS[(ci + ri + j) % len(FORMS)]
+            invs.append({'op': 'live', 'role': role, 'form': form, 'wrapper': wrapper, 'plugin': p, 'cmd': c,
+                         'args': rng.choice(ARGS), 'setting': setting})
+    if mode == 'widen':
+        roles = [r for r in ROLES if r in (flt or {}).get('roles', [])]
+        near = {tuple(x) for x in (flt or {}).get('cmds', [])}
+        for ci, (p, c) in enumerate(cmds):
+            for ri, role in enumerate(ROLES):
+                if (p, c) in near:
+                    add(ci + 1, p, c, ri, role, 3)
+                elif role in roles:
+                    add(ci + 1, p, c, ri, role, 1)
+        return invs
+    core, extra = (2, 1) if mode == 'quick' else (10, 5)
     for ci, (p, c) in enumerate(cmds):
         for ri, role in enumerate(ROLES):
-            for j in range(per):
-                r = rng.random()
-                wrapper = WRAPPERS[(ci + 3 * ri + 2 * j) % len(WRAPPERS)] if r < 0.8 else 'plugin'
-                setting = 'stock' if rng.random() < 0.5 else rng.choice(SETTINGS[1:])
-                form = FORMS[(ci + ri + j) % len(FORMS)]
-                invs.append({'op': 'live', 'role': role, 'form': form, 'wrapper': wrapper, 'plugin': p, 'cmd': c,
-                             'args': rng.choice(ARGS), 'setting': setting})
+            add(ci, p, c, ri, role, core if role in CORE_ROLES else extra)
     return invs
 
 
 def worker_main(argv):
-    """python c01.py worker I N SEED SCALE BUDGET : explore shard I of N, print one JSON object"""
-    i, n, seed, scale, budget = int(argv[0]), int(argv[1]), int(argv[2]), int(argv[3]), float(argv[4])
+    """python c01.py worker I N SEED MODE BUDGET [FILTER.json] : explore shard I of N, print one JSON object"""
+    i, n, seed, mode, budget = int(argv[0]), int(argv[1]), int(argv[2]), argv[3], float(argv[4])
+    flt = json.load(open(argv[5])) if len(argv) > 5 else None
     import random, collections, hashlib
     B = bot()
     cmds = live_commands(B)
     B['cmdcount'] = collections.Counter(c for _, c in cmds)
     rng = random.Random(seed)
-    invs = plan(B, rng, scale, cmds)
+    invs = plan(B, rng, mode, cmds, flt)
     mine = invs[i::n]
     t0 = time.time()
     recs, fails, dist, hashes, notes = [], [], collections.Counter(), set(), []
@@ -816,6 +914,9 @@ def worker_main(argv):
         if missing:
             notes.append('LIVE RUN INCOMPLETE: %d listed commands have no instrumented body' % len(missing))
         notes += inventory_crosscheck(B, cmds)
+    if B.get('resolve_errors'):
+        notes.append('LIVE RUN INCOMPLETE: worker %d could not resolve %d lines with findCallbacksForArgs, e.g. %s'
+                     % (i, len(B['resolve_errors']), B['resolve_errors'][0][:160]))
     touched = sorted({(inv['plugin'], inv['cmd'], inv['role']) for inv in mine[:done]})
     sys.stdout.write('\nRESULT ' + json.dumps({'recs': recs, 'fails': fails, 'dist': dict(dist), 'hashes': sorted(hashes), 'notes': notes,
                                                'done': done, 'planned': len(mine), 'ncmds': len(cmds), 'touched': [list(t) for t in touched], 'stats': B.get('stats', {})}) + '\n')
@@ -897,18 +998,39 @@ def _converter_level(rec, ev):
 
 
 def run_live(ctx):
-    import subprocess as sp
+    """quick: every command x every role (core roles twice); thorough: ten times denser; the runner's widened second pass
+    (a broken obligation, no failing input yet) does NOT repeat the whole matrix: it draws a fresh sample for the roles and
+    commands of the disagreeing live inputs only (none when the disagreements are elsewhere)"""
+    import subprocess as sp, tempfile
+    widened = any(str(x).startswith('obligation broken; widened search') for x in ctx.notes)
+    mode = 'thorough' if ctx.tier == 'thorough' else ('widen' if widened else 'quick')
+    extra = []
+    if mode == 'widen':
+        lives = [d['input'] for d in ctx.disagreements if isinstance(d.get('input'), dict) and d['input'].get('op') == 'live']
+        if not lives:
+            ctx.notes.append('widened pass: no live disagreement, live matrix not repeated')
+            return []
+        flt = {'roles': sorted({x['role'] for x in lives}), 'cmds': sorted({(x['plugin'], x['cmd']) for x in lives})[:40]}
+        fd, fn = tempfile.mkstemp(prefix='c01flt', suffix='.json')
+        with os.fdopen(fd, 'w') as f:
+            json.dump(flt, f)
+        extra = [fn]
+        ctx.notes.append('widened pass: fresh live sample for roles %s and %d commands near the disagreeing inputs' % (', '.join(flt['roles']), len(flt['cmds'])))
     n = min(14, max(2, (os.cpu_count() or 4) - 2))
-    budget = 55 if ctx.scale == 1 else 900
+    budget = {'quick': 60, 'thorough': 900, 'widen': 60}[mode]
+    seed = ctx.seed + {'quick': 0, 'thorough': 17, 'widen': 7919}[mode]
     procs = []
     for i in range(n):
         procs.append(sp.Popen(['timeout', str(int(budget * 2 + 90)), sys.executable, os.path.abspath(__file__), 'worker', str(i), str(n),
-                               str(ctx.seed + (0 if ctx.scale == 1 else 17)), str(ctx.scale), str(budget)],
+                               str(seed), mode, str(budget)] + extra,
                               stdout=sp.PIPE, stderr=sp.DEVNULL, text=True, env=dict(os.environ, PYTHONHASHSEED='0')))
+    ctx._live_mode = mode
     return procs
 
 
 def collect_live(ctx, procs):
+    if not procs:
+        return
     recs = []
     done = planned = 0
     touched = set()
@@ -944,10 +1066,10 @@ def collect_live(ctx, procs):
             continue
         r['_gate_only'] = dec_events(mg)
         compare_live(ctx, r, mo)
-    ctx.notes.append('live: %d workers, %d/%d planned invocations done, %d (command, role) pairs of %d commands x 7 roles, %d _callCommand runs compared with the model'
-                     % (len(procs), done, planned, len(touched), ncmds, len(recs)))
+    ctx.notes.append('live: %d workers, %d/%d planned invocations done, %d (command, role) pairs of %d commands x %d roles, %d _callCommand runs compared with the model'
+                     % (len(procs), done, planned, len(touched), ncmds, len(ROLES), len(recs)))
     ctx.notes.append('live outcome counts: ' + ', '.join('%s=%d' % kv for kv in sorted(stats.items())))
-    if done < planned or len(touched) < ncmds * len(ROLES):
+    if done < planned or (getattr(ctx, '_live_mode', 'quick') != 'widen' and len(touched) < ncmds * len(ROLES)):
         ctx.notes.append('LIVE RUN INCOMPLETE: the time budget stopped the exploration before every (command, role) pair was touched')
 
 
@@ -983,6 +1105,15 @@ H_CALLER = 'vcl!v@vhost'
 def build_db(B, g):
     ircdb, conf = B['ircdb'], B['conf']
     users = ircdb.users
+    users.noFlush = True
+    try:
+        _build_users(ircdb, users, g)
+    finally:
+        users.noFlush = False
+    _build_rest(B, ircdb, conf, g)
+
+
+def _build_users(ircdb, users, g):
     for uid in list(users.users.keys()):
         users.delUser(uid)
     if g['user'] is not None:
@@ -999,6 +1130,9 @@ def build_db(B, g):
             u.addAuth(H_CALLER)
         u.secure = kind.startswith('secure')
         users.setUser(u)
+
+
+def _build_rest(B, ircdb, conf, g):
     ircdb.channels.channels.clear()
     for name, c in g['chans'].items():
         ch = ircdb.IrcChannel()
@@ -1248,7 +1382,9 @@ def gate_oracle(B, inp, impl, outs):
                 gates.append(g[:3] + [0])
     elif words == ['sub', 'd1']:
         gates = [[1, '', [], 0]]
-    lacks = required_caps(B, H_CALLER, chan, plugin, ' '.join(words), gates)
+    u = inp['db'].get('user')
+    ev = UNKNOWN_EVAL if (u is not None and u.get('kind') == 'secure-authonly') else None
+    lacks = required_caps(B, H_CALLER, chan, plugin, ' '.join(words), gates, ev)
     if lacks and ran:
         return 'caller lacks %s but the body of %s ran' % (lacks[0], ' '.join(command))
     return None
